@@ -412,8 +412,11 @@ class MembersType(Type):
                 if addition_encoder.number_of_bits > 0 or addition.name in data:
                     addition_encoders.append(addition_encoder)
                     presence_bits |= 1
-        except EncodeError:
-            pass
+        except EncodeError as e:
+            # A missing addition ends the extension additions. An error
+            # in a present addition has a location and is not ignored.
+            if e.location:
+                raise
 
         # Return false if no extension additions are present.
         if not addition_encoders:
